@@ -23,7 +23,7 @@ import numpy as np
 
 PROP = "C01"
 DRIVER = None
-LEAN_MODULES = ["MesaModel.Props.C01", "MesaModel.Props.C01Legacy"]
+LEAN_MODULES = ["MesaModel.Props.C01", "MesaModel.Props.C01Legacy", "MesaModel.Props.C01Cells"]
 THEOREMS = ["Mesa.Rng." + t for t in (
     "C01_no_global_sites", "C01_sites_nonempty", "C01_sorted_pick_hashorder_independent",
     "C01_shuffle_perm", "C01_shuffle_deterministic", "C01_reseed_replays", "C01_derived_carry_generator")] + [
@@ -31,7 +31,9 @@ THEOREMS = ["Mesa.Rng." + t for t in (
     "Mesa.Legacy." + t for t in (
         "C01_legacy_sorted_set_order_independent", "C01_legacy_move_to_empty_pick_order_independent",
         "C01_legacy_move_to_empty_draws_by_size", "C01_legacy_move_to_empty_is_the_model",
-        "C01_legacy_hex_neighborhood_set_order_independent")]
+        "C01_legacy_hex_neighborhood_set_order_independent")] + [
+    "Mesa.Cells." + t for t in (
+        "C01_cells_collections_carry_the_space_generator", "C01_cells_selection_determined", "C01_cells_random_empty_determined")]
 COUNTS = {"quick": 24, "thorough": 240}
 WATCHDOG = 400
 HEADER_LINES = 0
